@@ -246,4 +246,60 @@ theorem runReadsR_lastErr (R : RefinesR read Rel isEof) (Q : ε → Prop)
       rw [lastErr_cons_ne _ _ hne] at he
       exact ih s' E' hi he
 
+/-- Termination from byte progress: every non-empty read that does not end the stream hands
+out at least one of the expected bytes. -/
+theorem runReadsR_terminates_bytes (R : RefinesR read Rel isEof)
+    (P : ∀ s E k d s', Rel s E → 0 < k → read s k = ((d, none), s') → d ≠ [])
+    (ks : List Nat) (s : σ) (E : Bytes) (h : Rel s E)
+    (hpos : ∀ k ∈ ks, 0 < k) (hlen : E.length < ks.length) :
+    ∃ e, lastErr (runReads read s ks).1 = some e := by
+  induction ks generalizing s E with
+  | nil => simp at hlen
+  | cons k ks ih =>
+    unfold runReads
+    rcases hr : read s k with ⟨⟨d, e'⟩, s'⟩
+    cases e' with
+    | some e' => exact ⟨e', rfl⟩
+    | none =>
+      obtain ⟨E', hE, hi⟩ := R.step_ok s E k d s' h hr
+      have hd := P s E k d s' h (hpos k (by simp)) hr
+      have hdl : 0 < d.length := List.length_pos_iff.mpr hd
+      have hl : E'.length < ks.length := by
+        have : E.length = d.length + E'.length := by rw [hE, List.length_append]
+        simp only [List.length_cons] at hlen
+        omega
+      obtain ⟨e, he⟩ := ih s' E' hi (fun k hk => hpos k (List.mem_cons_of_mem _ hk)) hl
+      refine ⟨e, ?_⟩
+      simp only
+      have hne : (runReads read s' ks).1 ≠ [] := by
+        intro hnil
+        rw [hnil] at he
+        simp [lastErr] at he
+      rw [lastErr_cons_ne _ _ hne]
+      exact he
+
+/-- The state a run ends in satisfies whatever every terminal step establishes. -/
+theorem runReadsR_final (R : RefinesR read Rel isEof) (Q : ε → σ → Prop)
+    (hQ : ∀ s E k d e s', Rel s E → read s k = ((d, some e), s') → Q e s')
+    (ks : List Nat) (s : σ) (E : Bytes) (h : Rel s E) (e : ε)
+    (he : lastErr (runReads read s ks).1 = some e) : Q e (runReads read s ks).2 := by
+  induction ks generalizing s E with
+  | nil => simp [runReads, lastErr] at he
+  | cons k ks ih =>
+    unfold runReads at he ⊢
+    rcases hr : read s k with ⟨⟨d, e'⟩, s'⟩
+    rw [hr] at he
+    cases e' with
+    | some e' =>
+      simp only [lastErr_single, Option.some.injEq] at he
+      subst he
+      exact hQ s E k d _ s' h hr
+    | none =>
+      simp only at he ⊢
+      obtain ⟨E', _, hi⟩ := R.step_ok s E k d s' h hr
+      have hne : (runReads read s' ks).1 ≠ [] := by
+        intro h0; rw [h0] at he; simp [lastErr] at he
+      rw [lastErr_cons_ne _ _ hne] at he
+      exact ih s' E' hi he
+
 end Req.C02
